@@ -217,16 +217,17 @@ PAIRS = [
     ("push(x, [1, 2", "x = 5\n-2"), ("f(1,\n(2", "y = a\n[1]\n(y)"), ("{'k': [1,", "a\n- a"), ("x = (", "1\n2\n+3"),
     ("a $ 1", "a\n+ 1"), ("'unterminated", "a\n'b'"), ("for", "a\nfor_ = 1"), ("(((", ")"), ("a +", "a +"), ("1 +", "1 + 1"),
     ("__ast_format__", "__version__"), ("", " "), ("\n", ""), ("#", "# \n"),
+    ("1" + " + 1" * 250, "1 + 1"), ("[" * 120 + "1" + "]" * 120, "[[1]]"), ("rows [0]", "rows\n[0]"), ("len (x)", "len\n(x)"), ("a # then b", "a # then\nb"),
 ]
 
 
 def pair_sequence(pi: int, swap: bool, warm: int, stores: bool, e1: bool, e2: bool, repeat: bool) -> None:
     """
-    pre: 0 <= pi < 24 and 0 <= warm <= 2
+    pre: 0 <= pi < 29 and 0 <= warm <= 2
     post: True
     """
     hlib.enter(locals())
-    pi, warm = hlib.concrete(pi, 0, 23), hlib.concrete(warm, 0, 2)
+    pi, warm = hlib.concrete(pi, 0, 28), hlib.concrete(warm, 0, 2)
     first, second = PAIRS[pi][::-1] if swap else PAIRS[pi]
     e1, e2, repeat = (True if e1 else False), (True if e2 else False), (True if repeat else False)
     steps = [(first, e1, False), (second, e2, False)] + ([(first, e1, False), (second, not e2, False)] if repeat else [])
